@@ -91,6 +91,11 @@ package pcache
 //@   modifies mapof(pc.write), pc.seq, pc.read, objects(cacheInfo)
 //@   ensures-local count("atomic.store:read") >= 1 || pc.seq == old(pc.seq)
 //@   ensures-local count("atomic.store:read") <= 1
+// a refresh that asked its sources and reports success has published a snapshot (only a refresh cut short
+// by the caller's own context returns without publishing, and then it returns that context's error)
+//@   ensures-local result == nil && count("call:ProviderSource.FetchAll") >= 1 ==> count("atomic.store:read") == 1
+// ASSUMED about context.Context: once Err() has returned non-nil it keeps doing so (second call on the cancel path)
+//@   at call Err#3: after assume result != nil
 //@   at call Store#1: assert isfresh(arg1)
 //@   at call Store#2: assert isfresh(arg1)
 //@   at call needMerge#1: assume arg0 < 2147483648 && arg1 < 2147483648
@@ -193,3 +198,29 @@ package pcache
 //@   pure
 //@   requires 0 <= u && u < 2147483648 && 0 <= m && m < 2147483648
 //@   ensures result <==> u * (u + 1) > 2 * m
+
+// ---------------------------------------------------------------------------
+// Options (C06: "each provider reported by at least one responding source"): sources are ADDED - the
+// sources configured before stay, in order, whatever option is applied after them.
+//@ func WithSource$1
+//@   property C06
+//@   requires cfg != nil
+//@   ensures result == nil && len(cfg.sources) == old(len(cfg.sources)) + len(src)
+//@   ensures forall(j, 0, old(len(cfg.sources)), cfg.sources[j] == old(cfg.sources)[j])
+
+// A source for a URL is a new object; nothing the caller holds is modified.
+//@ func NewHTTPSource
+//@   property C06
+//@   readonly
+//@   ensures result1 == nil ==> result0 != nil
+//@   ensures result1 != nil ==> result0 == nil
+
+//@ func WithSourceURL$1
+//@   property C06
+//@   requires cfg != nil
+//@   loop 1: invariant rangeindex < len(urls) && len(cfg.sources) == old(len(cfg.sources)) + rangeindex + 1
+//@   loop 1: invariant forall(j, 0, old(len(cfg.sources)), cfg.sources[j] == old(cfg.sources)[j])
+//@   loop 1: invariant suffix(cfg.sources[0:0], old(cfg.sources)[0:0], 0) || isfresh(cfg.sources)
+//@   loop 1: exhaustive
+//@   ensures result == nil ==> len(cfg.sources) == old(len(cfg.sources)) + len(urls)
+//@   ensures forall(j, 0, old(len(cfg.sources)), cfg.sources[j] == old(cfg.sources)[j])
